@@ -319,6 +319,27 @@ fn junk_menu(store: &RawStore) -> Vec<(String, Vec<u8>, &'static str)> {
         let bytes = b"[{\"a\":1},{\"b\":".to_vec();
         v.push((format!("{}.pack", sha_hex(&bytes)), bytes, "named-correctly-truncated-json-pack"));
     }
+    // hash-valid packs that no block names, carrying objects that CLAIM the digest of a genuine object through a
+    // "#" member (constants::HASH_FIELD), once under a name sorting before and once after the genuine pack
+    if let Some((pk, b)) = &some_pack {
+        if let Ok(Value::Array(objs)) = serde_json::from_slice::<Value>(b) {
+            if let Some(o) = objs.first() {
+                let d = sha_hex(serde_json::to_string(o).unwrap().as_bytes());
+                let (mut before, mut after) = (false, false);
+                for nonce in 0..64 {
+                    let bytes = format!("[{{\"nonce\":{}}},{{\"#\":\"{}\",\"v\":\"forged\"}}]", nonce, d).into_bytes();
+                    let name = format!("{}.pack", sha_hex(&bytes));
+                    if name < *pk && !before {
+                        before = true;
+                        v.push((name, bytes, "hash-valid-unreferenced-pack-claiming-a-genuine-digest"));
+                    } else if name > *pk && !after {
+                        after = true;
+                        v.push((name, bytes, "hash-valid-unreferenced-pack-claiming-a-genuine-digest"));
+                    }
+                }
+            }
+        }
+    }
     v
 }
 
